@@ -55,6 +55,7 @@ pub fn fcfg(c: &FragCase) -> FCfg {
         via_builder: c.via_builder,
         timescale: 90000,
         frag_ms: 2000,
+        stray: 0,
     }
 }
 
